@@ -244,6 +244,53 @@ def flag_rule(ctx):
             r.ok(f"Anisotropic dim {dim}: Voigt input is scaled by kappa_i*kappa_j, Kelvin-Mandel input is kept, both reach the return")
 
 
+def notation_rotation_rule(ctx):
+    """R11.9: 'supplying the same material in Voigt or Kelvin-Mandel notation ... yields the same law', also for material
+    axes at a generic angle: Anisotropic._Behavior(C_voigt, True) == Anisotropic._Behavior(kappa C_voigt kappa, False)
+    with Get_Pmat / Apply_Pmat interpreted on rational axes that are not a signed permutation ((3/5, 4/5, 0),
+    (-4/5, 3/5, 0) and a 3-D pair) -- the Kelvin-Mandel scaling commutes with the change of basis only for axes at
+    multiples of 90 degrees."""
+    repo = ctx.repo
+    r = ctx.rule("R11.9", "Voigt input and Kelvin-Mandel input of the same material give the same law for material axes at a generic angle (symbolic C, Get_Pmat / Apply_Pmat interpreted)", min_instances=2)
+    ci = repo.cls(f"{LAWS}.Anisotropic")
+    f = ci.methods["_Behavior"]
+
+    def symbolic(a):
+        return isinstance(a, Junk) or (isinstance(a, XArray) and any(isinstance(x, Junk) or (isinstance(x, Poly) and not x.is_const()) for x in a.data))
+
+    def hook(fn, args, kwargs):
+        # the symmetry self-check of the symbolic matrix is not followed; the norms of the (rational) axes are
+        if isinstance(fn, _NpAttr) and fn.path in ("linalg.norm", "max") and (any(symbolic(a) for a in args) or isinstance(kwargs.get("axis"), tuple)):
+            return Junk()
+        return NotImplemented
+
+    s2 = MQ.sqrt(2)
+    for dim, a1, a2 in ((2, [Q(3, 5), Q(4, 5), Q(0)], [Q(-4, 5), Q(3, 5), Q(0)]), (3, [Q(2, 3), Q(2, 3), Q(1, 3)], [Q(-2, 3), Q(1, 3), Q(2, 3)])):
+        n = 3 if dim == 2 else 6
+        r.instance(fn=f.qualname)
+        Cin = XArray((n, n), [Poly.var(f"C{min(i,j)}{max(i,j)}") for i in range(n) for j in range(n)])
+        kap = [Q(1)] * dim + [s2] * (n - dim)
+        Ckm = XArray((n, n), [Cin[i, j] * (kap[i] * kap[j]) for i in range(n) for j in range(n)])
+        out = {}
+        for flag, Carg in ((True, Cin), (False, Ckm)):
+            I = Interp(repo, max_steps=50_000_000)
+            I.call_hook = hook
+            obj = XObj(ci, {"dim": dim, "_Anisotropic__axis1": XArray((3,), list(a1)), "_Anisotropic__axis2": XArray((3,), list(a2))})
+            out[flag] = XArray.from_nested(I.call_function(f, [Carg, flag], self_obj=obj))
+        bad = None
+        if out[True].shape != out[False].shape:
+            bad = f"shapes {out[True].shape} and {out[False].shape}"
+        else:
+            for k, (x, y) in enumerate(zip(out[True].data, out[False].data)):
+                if not is_zero(x - y):
+                    bad = f"entry ({k // n}, {k % n}) differs"
+                    break
+        if bad:
+            r.fail(f.qualname, f"notation-rotation:dim{dim}", f.file, f.lineno, "Anisotropic._Behavior", f"dim {dim}, material axes {[str(x) for x in a1]}, {[str(x) for x in a2]}: the law built from the Voigt matrix differs from the law built from the Kelvin-Mandel matrix of the same material ({bad}): the notation conversion and the change of basis are applied in an order in which they do not commute")
+        else:
+            r.ok(f"dim {dim}: Voigt and Kelvin-Mandel input agree for rotated axes")
+
+
 def descriptor_rule(ctx, r=None):
     """the _Parameter descriptor raises Need_Update on every completing path of __set__ and hands out copies"""
     repo = ctx.repo
@@ -360,6 +407,7 @@ def run(ctx):
     lazy_rule(ctx)
     rotation_direction_rule(ctx)
     ctx.attempt(axis_guard_rule, ctx)
+    ctx.attempt(notation_rotation_rule, ctx)
     from ..shared import notify_last_rule as _notify_last_rule
 
     ctx.attempt(_notify_last_rule, ctx, "R11.8")
